@@ -124,6 +124,19 @@ def gen_case(rng, cls):
             seqs.insert(rng.randint(0, len(seqs)), "")
         if sum(1 for s in seqs if s) < 2:
             seqs += ["ACGTACGT", "ACGGT"] if kind != "protein" else ["MKVLDEFW", "MKILDEW"]
+    elif cls == "huge_header":
+        # database-style definition lines can be tens of thousands of characters long (many merged entries): one physical line
+        # longer than any fixed I/O buffer (2^16, 2^17) must still come back as the name, and must not leak into the residues
+        kind, seqs = gen.seqset(rng, None, 3, 8, 10, 120)
+        hl = [rng.choice([65533, 65534, 65535, 65536, 65537, 70000, 131071, 131072, 140000]) for _ in range(rng.randint(1, 2))]
+        names = gen.names(rng, len(seqs), "s")
+        for k, L_ in enumerate(hl):
+            body = "".join(rng.choice("ACDEFGHIKLMNPQRSTVWYacgt0123456789_.|-= ") for _ in range(L_ - len(names[k]) - 1))
+            while "  " in body:
+                body = body.replace("  ", " _")
+            names[k] = (names[k] + "_" + body).rstrip() or names[k]
+            names[k] = names[k] if not names[k].endswith(" ") else names[k][:-1] + "x"
+        return {"kind": kind, "recs": list(zip(names, seqs)), "spaces": True, "cls": cls}
     else:
         raise ValueError(cls)
     # letter case
@@ -282,10 +295,10 @@ def run(ck, tier):
     paths = build("asan")
     sc = getattr(ck, "scale", 1.0)
     if tier == "quick":
-        plan = [("huge", 2), ("odd_letters", 10), ("late_gaps", 6), ("near_end", 12), ("outlier", 3), ("many_long", 3), ("bulk", 100), ("boundary_len", 17), ("boundary_n", 6), ("empties", 8), ("ratio", 2), ("many", 1), ("long", 1)]
+        plan = [("huge", 2), ("odd_letters", 10), ("late_gaps", 6), ("near_end", 12), ("outlier", 3), ("many_long", 3), ("bulk", 100), ("boundary_len", 17), ("boundary_n", 6), ("empties", 8), ("ratio", 2), ("many", 1), ("long", 1), ("huge_header", 3)]
         big = build("rel")
     else:
-        plan = [("huge", 12), ("odd_letters", 150), ("late_gaps", 80), ("near_end", 200), ("outlier", 40), ("many_long", 30), ("bulk", 1200), ("boundary_len", 170), ("boundary_n", 60), ("empties", 120), ("ratio", 20), ("many", 12), ("long", 12)]
+        plan = [("huge", 12), ("odd_letters", 150), ("late_gaps", 80), ("near_end", 200), ("outlier", 40), ("many_long", 30), ("bulk", 1200), ("boundary_len", 170), ("boundary_n", 60), ("empties", 120), ("ratio", 20), ("many", 12), ("long", 12), ("huge_header", 30)]
         big = build("rel")
     cases = []
     for cls, n in plan:
@@ -294,7 +307,7 @@ def run(ck, tier):
     # boundary lengths: make sure every listed boundary appears at least once
     common.pmap(lambda ic: check_case(ck, paths, big, ic[1], ic[0]), list(enumerate(cases)), workers=12)
     ck.rule = ("generated sequence sets (families over random/star/caterpillar/balanced trees, random, low-complexity, duplicates, 1-vs-5000 length ratio, "
-               "equal lengths, empty records mixed in, letters outside the alphabets (U/J/O, X, IUPAC), gap characters already present in the input (also only after the 50th record), buffer-boundary lengths and counts) x admissible type x default/user penalties x threads {1,2,3,8,16}; "
+               "equal lengths, empty records mixed in, letters outside the alphabets (U/J/O, X, IUPAC), gap characters already present in the input (also only after the 50th record), definition lines of 65533..140000 characters, buffer-boundary lengths and counts) x admissible type x default/user penalties x threads {1,2,3,8,16}; "
                "each case is observed at kalign() arrays, the msa object, the three written files and the CLI output; every output must reproduce the input "
                "rows exactly (C01 oracle in vf/fmt.py:check_alignment). Non-trivial = an output that contains at least one gap; distinct by input content+settings.")
     ck.assumptions = ["independent FASTA/Clustal/MSF parsers in vf/fmt.py", "names without whitespace for MSF/Clustal outputs (format definition)"]
